@@ -12,6 +12,7 @@ pub mod c09;
 pub mod c10;
 pub mod c11;
 pub mod c12;
+pub mod c13;
 pub mod c16;
 pub mod c17;
 pub mod c18;
@@ -39,6 +40,7 @@ pub fn dispatch(ctx: &Ctx) -> bool {
         "C10" => c10::run(ctx),
         "C11" => c11::run(ctx),
         "C12" => c12::run(ctx),
+        "C13" => c13::run(ctx),
         "C16" => c16::run(ctx),
         "C17" => c17::run(ctx),
         "C18" => c18::run(ctx),
